@@ -153,7 +153,14 @@ def check(case, rec):
       rec.boundary_skipped += 1
       rec.cls("skipped:limit-at-margin")
       continue
-    rw, rm = rows_keyed(ew, cw, mjm, idmap), rows_keyed(em, cm, mjm)
+    # key contact rows by the index of the matched MuJoCo contact (two contacts of one geom pair can lie within the rounding of a
+    # position key and would then share it)
+    cwk, cmk = dict(cw), dict(cm)
+    cmk["pos"] = np.array([[j, 0.0, 0.0] for j in range(len(cm["dist"]))], dtype=np.float64).reshape(-1, 3)
+    cwk["pos"] = np.zeros((len(cw["dist"]), 3))
+    for a, b in pairs:
+      cwk["pos"][a] = [b, 0.0, 0.0]
+    rw, rm = rows_keyed(ew, cwk, mjm, idmap), rows_keyed(em, cmk, mjm)
     if [k for k, _ in rw] != [k for k, _ in rm]:
       onlyw = [k for k in dict(rw) if k not in dict(rm)][:3]
       onlym = [k for k in dict(rm) if k not in dict(rw)][:3]
@@ -188,10 +195,15 @@ def check(case, rec):
         j = int(np.argmax(np.abs(Dw - Dm) / np.maximum(np.abs(Dm), 1e-6)))
         rec.violation(f"efc.D differs: row key {rw[j][0]} got {Dw[j]} want {Dm[j]}", sig="rows:D", **ctx)
       aw, am = ew["aref"][iw].astype(np.float64), em["aref"][im]
-      rel = np.max(np.abs(aw - am) / np.maximum(np.abs(am), 1e-2 * scale_a))
+      # aref = -B*vel - K*I*(pos - margin): float32 noise in pos (1e-6) and vel (1e-5 relative) is amplified by the row's stiffness/damping
+      kbip = np.asarray(mjd.efc_KBIP).reshape(-1, 4)[im]
+      floor = kbip[:, 0] * 3e-6 + kbip[:, 1] * 2e-5 * max(1.0, float(np.max(np.abs(em["vel"]))) if em["nefc"] else 1.0)
+      den = np.maximum(np.abs(am), 1e-2 * scale_a)
+      relv = np.maximum(np.abs(aw - am) - floor, 0.0) / den
+      rel = np.max(relv)
       rec.err("efc.aref(rel)", rel)
       if rel > 2e-3:
-        j = int(np.argmax(np.abs(aw - am) / np.maximum(np.abs(am), 1e-2 * scale_a)))
+        j = int(np.argmax(relv))
         rec.violation(f"efc.aref differs: row key {rw[j][0]} got {aw[j]} want {am[j]}", sig="rows:aref", **ctx)
     # contact.efc_address consistency
     adr = cw["efc_address"]
